@@ -13,7 +13,7 @@ use std::collections::HashSet;
 
 /// Spectrum keyboard matrix written from the hardware documentation: row index = address line
 /// A8+row, bit index = data line.
-const MATRIX: [[&str; 5]; 8] = [
+pub const MATRIX: [[&str; 5]; 8] = [
     ["Shift", "Z", "X", "C", "V"],
     ["A", "S", "D", "F", "G"],
     ["Q", "W", "E", "R", "T"],
@@ -24,7 +24,7 @@ const MATRIX: [[&str; 5]; 8] = [
     ["Space", "SymShift", "M", "N", "B"],
 ];
 
-fn pos_of(name: &str) -> (usize, usize) {
+pub fn pos_of(name: &str) -> (usize, usize) {
     for (r, row) in MATRIX.iter().enumerate() {
         for (b, k) in row.iter().enumerate() {
             if *k == name {
